@@ -237,12 +237,15 @@ func (c *Ctx) Finish() {
 		c.samples = []any{"(no sample recorded)"}
 	}
 	cov["samples"] = c.samples
-	var kh []string
+	kh := []string{}
 	for k := range c.knownHit {
 		kh = append(kh, k)
 	}
 	sort.Strings(kh)
 	cov["known_findings_reproduced"] = kh
+	if c.assume == nil {
+		c.assume = []string{}
+	}
 	ev := map[string]any{
 		"property_id": c.ID, "tier": c.Tier, "seed": c.Seed, "level": "model_checking",
 		"coverage": cov, "assumptions": c.assume, "wall_s": time.Since(c.start).Seconds(),
